@@ -13,7 +13,7 @@ import re
 from .oracles import IterCap
 from .seams import SimHang
 from .simfs import SimCrash
-from .world import LikeFault, World, forget
+from .world import LikeFault, LikeInterrupt, World, forget
 from .simpool import WorkerDied
 
 
@@ -71,12 +71,37 @@ def execute(case, monitors, iter_cap=400):
             except SimCrash as e:
                 info["crashed"] = True
                 forget(e)
-            except (LikeFault, WorkerDied) as e:
+            except (LikeFault, WorkerDied, LikeInterrupt) as e:
                 info["exc"] = type(e).__name__
                 forget(e)
                 for m in w.monitors:
                     if hasattr(m, "on_exception"):
                         m.on_exception(inc, s, info["exc"])
+                if case.get("after_exc"):
+                    # the user catches the exception (or hits Ctrl-C in a notebook) and keeps using the same object
+                    try:
+                        for m in w.monitors:
+                            if hasattr(m, "on_phase"):
+                                m.on_phase(inc, "rerun")
+                        info["iters"].append(inc.n_commits)
+                        inc.n_commits = 0
+                        n2 = case.get("n_total2", n_total)
+                        if case["after_exc"] == "sample_then_run":
+                            s.sample()
+                        s.run(n_total=n2, progress=False)
+                        info["completed"] = True
+                        info["continued_after_exception"] = True
+                        w.probe("run_again_after_exception")
+                        for m in w.monitors:
+                            if hasattr(m, "on_run_end"):
+                                m.on_run_end(inc, s, n2, "rerun")
+                    except SimHang:
+                        raise
+                    except Exception as e2:
+                        info["exc"] = f"after {info['exc']}: {type(e2).__name__}: {str(e2)[:160]}"
+                        info["exc_type"] = type(e2).__name__
+                        info["exc_after_exception"] = True
+                        forget(e2)
             except SimHang:
                 raise
             except Exception as e:
